@@ -34,13 +34,138 @@ def h_release(a, inst):
     return released(r, T)
 
 
+# ------------------------------------------------------------------ the subscriber's own terminal handler raises
+import reactivex  # noqa: E402
+from reactivex import operators as ops  # noqa: E402
+
+from engine.api import I  # noqa: E402
+from engine.lib import Injected, make_scheduler, on_completed, on_error, on_next  # noqa: E402
+
+SHAPES = {
+    "plain": lambda a, b: a,
+    "map": lambda a, b: a.pipe(ops.map(lambda x: x)),
+    "merge": lambda a, b: reactivex.merge(a, b),
+    "op_merge": lambda a, b: a.pipe(ops.merge(b)),
+    "concat": lambda a, b: reactivex.concat(a, b),
+    "take_until": lambda a, b: a.pipe(ops.take_until(b.pipe(ops.skip(5)))),
+    "sample": lambda a, b: a.pipe(ops.sample(b)),
+    "combine_latest": lambda a, b: reactivex.combine_latest(a, b),
+    "with_latest_from": lambda a, b: a.pipe(ops.with_latest_from(b)),
+    "zip": lambda a, b: reactivex.zip(a, b),
+    "flat_map": lambda a, b: a.pipe(ops.flat_map(lambda x: b)),
+    "switch_latest": lambda a, b: a.pipe(ops.map(lambda x: b), ops.switch_latest()),
+    "amb": lambda a, b: reactivex.amb(a, b),
+    "catch": lambda a, b: a.pipe(ops.catch(b)),
+    "share": lambda a, b: reactivex.merge(a, b).pipe(ops.share()),
+}
+BOOM = Injected("subscriber")
+
+
+@harness(instances=lambda tier: [{"shape": s} for s in SHAPES], g=I(0, 2, n=2), term=I(1, 2), how=I(0, 2), timeout=(60, 600))
+def h_subscriber_raises(a, inst):
+    """a terminates (completed / error) at a symbolic time while b is still running; the subscriber's terminal handler raises (how
+    = 1), re-raises the error it was given as the default on_error handler does (how = 2), or behaves (how = 0).  Whatever
+    the handler does, once the subscriber has been sent its terminal notification no test source may stay subscribed"""
+    sch = make_scheduler()
+    ma = [on_next(1 + a.g[0], 1)]
+    ma.append(on_completed(2 + a.g[0] + a.g[1]) if a.term == 1 else on_error(2 + a.g[0] + a.g[1], Injected("a")))
+    A = sch.create_cold_observable(ma)
+    B = sch.create_cold_observable([on_next(1, 50), on_next(30, 51)])  # still running when a terminates; never terminates itself
+    obs = SHAPES[inst["shape"]](A, B)
+    log = []
+
+    def on_err(e):
+        log.append("E")
+        if a.how == 1:
+            raise BOOM
+        if a.how == 2:
+            raise e  # what the default on_error handler of subscribe() does
+
+    def on_done():
+        log.append("C")
+        if a.how == 1:
+            raise BOOM
+
+    def sub(s, st):
+        obs.subscribe(lambda v: log.append("N"), on_err, on_done, scheduler=s)
+
+    sch.schedule_absolute(200, sub)
+    try:
+        sch.advance_to(228)
+    except Exception:  # noqa: BLE001  (the subscriber's own exception surfaces from the scheduler run)
+        pass
+    if "E" not in log and "C" not in log:
+        return True  # the subscriber was not sent a terminal notification within the horizon (e.g. concat with a running b)
+    cover("terminated")
+    for src in (A, B):
+        for x in src.subscriptions:
+            if x.unsubscribe > 228:
+                return False
+    return True
+
+
+# ------------------------------------------------------------------ operators that hand out observables, terminated from downstream
+NESTED = {
+    "window_with_count": lambda sch: ops.window_with_count(2),
+    "window_with_count_skip": lambda sch: ops.window_with_count(2, 1),
+    "window_with_time": lambda sch: ops.window_with_time(3, scheduler=sch),
+    "window_with_time_or_count": lambda sch: ops.window_with_time_or_count(3, 2, scheduler=sch),
+    "window_when": lambda sch: ops.window_when(lambda: reactivex.timer(3, scheduler=sch)),
+    "window_toggle": lambda sch: ops.window_toggle(reactivex.timer(0, 2, scheduler=sch), lambda _: reactivex.timer(3, scheduler=sch)),
+    "window_boundaries": lambda sch: ops.window(reactivex.timer(2, 2, scheduler=sch)),
+    "group_by": lambda sch: ops.group_by(lambda x: x % 2),
+    "group_by_until_timer": lambda sch: ops.group_by_until(lambda x: x % 2, None, lambda g: reactivex.timer(3, scheduler=sch)),
+    "group_by_until_self": lambda sch: ops.group_by_until(lambda x: x % 2, None, lambda g: g.pipe(ops.skip(2))),
+    "group_by_until_self_count": lambda sch: ops.group_by_until(lambda x: x % 2, None, lambda g: g.pipe(ops.count())),
+    "partition_first": lambda sch: (lambda src: reactivex.of(*src.pipe(ops.partition(lambda x: x % 2 == 0)))),
+}
+
+
+@harness(instances=lambda tier: [{"op": o, "N": 3} for o in NESTED], v=I(0, 3, n=3), g=I(0, 2, n=3), take=I(1, 2), sub=I(0, 1), timeout=(60, 600))
+def h_downstream_take(a, inst):
+    """a never-terminating hot source -> an operator that emits windows / groups -> take(k): the subscriber is completed from
+    downstream while windows / groups are open.  With sub == 1 every emitted inner observable was subscribed by the consumer and
+    is unsubscribed again when the outer completes; with sub == 0 nobody subscribed them.  Either way nothing may keep the source
+    (or any other test source) subscribed once the consumer holds no subscription any more"""
+    sch = make_scheduler()
+    t, msgs = 210, []
+    for i in range(3):
+        t = t + a.g[i]
+        msgs.append(on_next(t, a.v[i]))
+    src = sch.create_hot_observable(msgs)
+    inner_subs = []
+    done = []
+
+    def consume(w):
+        if a.sub:
+            inner_subs.append(w.subscribe(lambda v: None, lambda e: None, scheduler=sch))
+
+    out = src.pipe(NESTED[inst["op"]](sch), ops.do_action(consume), ops.take(a.take))
+
+    def go(s, st):
+        out.subscribe(lambda v: None, lambda e: None, lambda: (done.append(sch.clock), [d.dispose() for d in inner_subs]), scheduler=s)
+
+    sch.schedule_absolute(200, go)
+    sch.advance_to(232)
+    if not done:
+        return True
+    cover("completed")
+    for x in src.subscriptions:
+        if x.unsubscribe > 232:
+            return False
+    return True
+
+
 ENCODED = ["reactivex/observable/observable.py", "reactivex/observer/autodetachobserver.py",
            "reactivex/disposable/compositedisposable.py", "reactivex/disposable/serialdisposable.py",
            "reactivex/disposable/singleassignmentdisposable.py", "reactivex/disposable/refcountdisposable.py",
            "reactivex/operators/__init__.py", "reactivex/testing/coldobservable.py", "reactivex/testing/hotobservable.py"]
 BOUNDS = {"quick": "every catalogued operator (depth 1; windows/groups flattened with merge_all so each inner is subscribed), main source "
                    "N in 1..2 elements, second source 1 element, two cold inner sources, all gaps in [0,2], terminal kinds "
-                   "none/completed/error for every source, parameters p in [0,2], m in [1,2], callback fault position k in [0,N+2]",
+                   "none/completed/error for every source, parameters p in [0,2], m in [1,2], callback fault position k in [0,N+2]; 15 two-source shapes whose subscriber's own terminal handler raises, is missing "
+                   "(default on_error re-raises) or behaves, with the first source terminating at a symbolic time while the second is "
+                   "still running; 12 window / group operators over a never-ending source completed from downstream by take(1..2) with the "
+                   "emitted windows / groups subscribed or not",
           "thorough": "N in 1..3"}
 ASSUMES = ["Tick/Span time stub", "sources are test observables (their subscription logs are the observation point)",
            "termination time = virtual time of the subscriber's terminal notification; every subscription must be closed at that tick"]
